@@ -24,12 +24,15 @@ def qstr(x):
     return f"{x.numerator}/{x.denominator}"
 
 
-class LazyUniform:
+class LazyUniform(float):
     """Result of random.random(): an exact uniform real on [0,1) that can only be compared with a
-    threshold; the comparison forks (P(U <= p) = P(U < p) = p clipped to [0,1])."""
+    threshold; the comparison forks (P(U <= p) = P(U < p) = p clipped to [0,1]).  It is a float
+    (so that Scenic can record it in a replay log) but refuses arithmetic."""
 
-    def __init__(self, oracle):
+    def __new__(cls, oracle):
+        self = super().__new__(cls, 0.5)
         self._o = oracle
+        return self
 
     def _bern(self, p, truth_on_below):
         p = Fraction(p)
@@ -50,8 +53,12 @@ class LazyUniform:
     def __gt__(self, p):
         return self._bern(p, False)
 
-    def __float__(self):
+    def _no(self, *a):
         raise Unsupported("random.random() used as a number")
+
+    __add__ = __radd__ = __sub__ = __rsub__ = __mul__ = __rmul__ = __truediv__ = __rtruediv__ = _no
+    __floordiv__ = __mod__ = __pow__ = __neg__ = __abs__ = __int__ = __round__ = __eq__ = __ne__ = _no
+    __hash__ = float.__hash__
 
     def __repr__(self):
         return "<U[0,1)>"
